@@ -10,7 +10,7 @@ from ..runner import Sub, Violation, require
 PROPERTY = "C09"
 RULE = ("histories (Hypothesis RuleBasedStateMachine, <= 20 / 40 steps) over a bundle of "
         "generated caption sets - metacharacter texts, styles, layouts in % and px at every "
-        "level, balanced and unbalanced STYLE nodes, captions of 16+ lines, empty languages, 1-2 "
+        "level, balanced and unbalanced STYLE nodes, spans styled through named styles ('class' / 'classes' references whose few names mean different styles from set to set), captions of 16+ lines, empty languages, 1-2 "
         "languages, plus the caption sets the readers return for the repository's documents - and a pool of writer objects per (class, constructor options). Rules: add a "
         "set; write a set with one of the eight writers on a fresh or a pooled (previously used) "
         "writer object with generated constructor / call options; write an earlier (set, writer, "
@@ -29,10 +29,20 @@ WRITERS = ["srt", "webvtt", "dfxp", "sami", "microdvd", "scc", "dfxp-legacy", "d
 
 
 def set_strategy():
-    from . import c07
+    from . import c07, c11
 
     @st.composite
     def build(draw):
+        if draw(st.integers(0, 2)) == 0:
+            # spans styled through named styles; the same few names mean different styles in
+            # different sets; optionally a late caption that makes relativizing writers fail
+            s = draw(c11.classes_strategy("quick"))["set"]
+            if draw(st.integers(0, 2)) == 0:
+                s["langs"][0]["cues"].append({
+                    "start": 9000000, "end": 9500000, "nodes": [{"t": "late"}], "style": {},
+                    "layout": {"origin": [[10, "px"], [10, "px"]], "extent": None, "padding": None,
+                               "align": None, "webvtt": None}})
+            return s
         s = draw(c07.api_strategy("quick"))["set"]
         mode = draw(st.integers(0, 7))
         lang = s["langs"][0]
@@ -241,7 +251,7 @@ def machine(tier, hook):
         @rule(data=st.data())
         def write(self, data):
             i = data.draw(st.integers(0, len(self.st.sets) - 1))
-            name = data.draw(st.sampled_from(WRITERS))
+            name = data.draw(st.sampled_from(WRITERS + ["webvtt", "sami", "dfxp"]))
             codes = [l["code"] for l in self.st.sets[i]["langs"]]
             self._do({"op": "write", "set_i": i, "writer": name,
                       "ctor": data.draw(ctor_strategy(name)),
@@ -264,6 +274,29 @@ def machine(tier, hook):
             self._do(dict(prev, set_i=j, pooled=True,
                           call=data.draw(call_strategy(prev["writer"], codes))))
 
+        @rule(data=st.data(), name=st.sampled_from(["webvtt", "webvtt", "dfxp", "sami", "dfxp-single"]))
+        def failed_write_then_reuse(self, data, name):
+            """One writer object: a write that fails part-way (absolute layout on a late caption,
+            relativization on, no video size), then a write of another set in which the same
+            style names mean other styles."""
+            from . import c11
+            a = data.draw(c11.classes_strategy("quick"))["set"]
+            b = data.draw(c11.classes_strategy("quick"))["set"]
+            a["langs"][0]["cues"].append({
+                "start": 9000000, "end": 9500000, "nodes": [{"t": "late"}], "style": {},
+                "layout": {"origin": [[10, "px"], [10, "px"]], "extent": None, "padding": None,
+                           "align": None, "webvtt": None}})
+            ctor = {"relativize": True, "fit_to_screen": data.draw(st.booleans()), "video_width": None,
+                    "video_height": None}
+            if name in ("dfxp", "dfxp-single"):
+                ctor["write_inline_positioning"] = False
+            self._do({"op": "new_set", "set": a})
+            ia = len(self.st.sets) - 1
+            self._do({"op": "new_set", "set": b})
+            ib = len(self.st.sets) - 1
+            self._do({"op": "write", "set_i": ia, "writer": name, "ctor": ctor, "call": {}, "pooled": True})
+            self._do({"op": "write", "set_i": ib, "writer": name, "ctor": ctor, "call": {}, "pooled": True})
+
         def teardown(self):
             case = {"tier": tier, "steps": self.steps}
             rec.begin(case)
@@ -274,5 +307,5 @@ def machine(tier, hook):
 
 
 def subchecks(tier):
-    return [Sub("histories", check_history, machine=machine, examples=(400, 10000),
+    return [Sub("histories", check_history, machine=machine, examples=(800, 12000),
                 steps=(20, 40), min_per_shard=20)]
